@@ -329,7 +329,7 @@ def oracle_fn(ops, impl):
     return bad
 
 
-FN = Stream('unit_fn', 'h_unit', 'unit', gen_fn, oracle=oracle_fn, whitebox=['ref_adapt'], harness_args=('fn',),
+FN = Stream('unit_fn', 'h_unit', 'unit', gen_fn, oracle=oracle_fn, whitebox=['ref_adapt', 'ref_collapse'], harness_args=('fn',),
             session='split', nontrivial=lambda op, out: out.startswith('ok'))
 
 
@@ -410,7 +410,7 @@ def oracle_param(ops, impl):
     return bad
 
 
-PARAM = Stream('unit_param', 'h_unit', 'unit', gen_param, oracle=oracle_param, kind='validate', whitebox=['ref_adapt'],
+PARAM = Stream('unit_param', 'h_unit', 'unit', gen_param, oracle=oracle_param, kind='validate', whitebox=['ref_adapt', 'ref_collapse'],
                harness_args=('param',), driver_args=('validate',), session='reset',
                nontrivial=lambda op, out: out.startswith('P') or out.startswith('Q'))
 # (a qsmooth op prints two record lines, `QM MB ...` and `QM ME ...`)
@@ -473,7 +473,7 @@ def oracle_run(ops, impl):
     return bad[:20]
 
 
-RUN = Stream('unit_run', 'h_unit', 'unit', gen_run, oracle=oracle_run, kind='validate', whitebox=['ref_adapt'],
+RUN = Stream('unit_run', 'h_unit', 'unit', gen_run, oracle=oracle_run, kind='validate', whitebox=['ref_adapt', 'ref_collapse'],
              harness_args=('run',), driver_args=('validate',), session='run',
              nontrivial=lambda op, out: out[:2] in ('SA', 'CA', 'ME', 'W ', 'V ', 'T '))
 
